@@ -24,6 +24,17 @@ def run(ctx):
     for a in ("OpenFile", "ReadFrame", "Desync"):
         if mc.coverage and mc.coverage.get(a, (0, 0))[0] == 0:
             raise InfraError("vacuous model: action %s never fired" % a)
+    # writer side: accepted entries reach the files in append order whatever the boundary cause
+    # (size rotation, restart, write-failure rotation); the re-enqueue variant must be rejected
+    wr = ctx.tlc("walfile", "WalWriter", "Writer_MC.cfg", coverage=True, timeout=600, workers=4)
+    for a in ("AppendEntry", "WriteOk", "Break", "WriteFail", "Restart"):
+        if wr.coverage.get(a, (0, 0))[0] == 0:
+            raise InfraError("vacuous writer model: action %s never fired" % a)
+    nc = ctx.tlc("walfile", "WalWriter", "Writer_NC_requeue.cfg", timeout=600, workers=4, allow_violation=True)
+    if nc.violated != "WriterSafety":
+        raise InfraError("negative control Writer_NC_requeue.cfg was not rejected by TLC (%s)" % nc.violated)
+    ctx.note("tlc_writer_model", {"distinct": wr.distinct, "generated": wr.generated,
+                                  "negative_control_rejected": "Writer_NC_requeue.cfg (re-enqueue after a failed write)"})
     gen = ctx.tlc("walfile", "WalFile", "Gen_%s.cfg" % size, timeout=1800, workers=4)
     if not gen.traces:
         raise InfraError("generator emitted nothing")
@@ -71,6 +82,7 @@ def run(ctx):
     for s in (r.get("samples") or []):
         ctx.sample(s)
     ctx.assume("a desynchronised reader (after a corrupted length) cannot yield an entry without a CRC-32 collision")
+    ctx.note("boundary_causes_realised", ["size rotation", "writer restart", "write-failure rotation (file handle closed under the writer mutex, later entries queued)"])
     ctx.assume("payloads generated by the driver do not embed a valid frame")
     ctx.assume("a caller may reuse the slice it passed to Append*/AppendRaw*/AppendRawWithMeta as soon as the call returned (the driver overwrites it)")
     ctx.assume("the header timestamp is outside the CRC and outside 'payload with its database'; it is not compared")
